@@ -57,12 +57,7 @@ Theorem write_is_function_of_value :
         NoDup (map fst extra1) -> NoDup (map fst extra2) -> (forall e, In e extra1 <-> In e extra2) ->
         forall tag, tm_get tag (M_table_map d extra1) = tm_get tag (M_table_map d extra2))
     /\ n_ident_day (M_write_name F) <> None.
-Proof.
-  intros F enc_mac enc_win ident Ht. split; [|split].
-  - intros. apply name_encode_order_independent; assumption.
-  - exact table_map_order_independent.
-  - apply ident_day_from_font. exact Ht.
-Qed.
+Proof. exact write_function_of_value_lemma. Qed.
 Print Assumptions write_is_function_of_value.
 
 (* Lossless clause: a value that is already consistent (canonical, Spec.v)
@@ -94,11 +89,7 @@ Theorem subfamily_tests :
     contains s_Italic (subfamily F) = negb (f_oblique F) && f_italic F /\
     contains s_Bold (subfamily F) && negb (contains s_SemiBold (subfamily F))
       && negb (contains s_ExtraBold (subfamily F)) = name_says_bold F.
-Proof.
-  intros F. split.
-  - exact (Proofs_sub.subfamily_italic_test F).
-  - exact (Proofs_sub.subfamily_bold_test F).
-Qed.
+Proof. exact Proofs_sub.subfamily_tests_lemma. Qed.
 Print Assumptions subfamily_tests.
 
 (* The version survives to three decimals: printing (%.03f) and parsing
@@ -107,11 +98,7 @@ Theorem version_print_parse :
   forall v : N, (ver_to_milli v < 65536000)%N ->
     version_from_string (s_Version_sp ++ version_string v) = Some (norm_version v)
     /\ ver_to_milli (norm_version v) = ver_to_milli v.
-Proof.
-  intros v H. split.
-  - unfold version_string. apply Proofs_str.version_from_string_print.
-  - unfold norm_version. apply Proofs_str.ver_to_milli_of_decimal. exact H.
-Qed.
+Proof. exact version_print_parse_lemma. Qed.
 Print Assumptions version_print_parse.
 
 (* Translator tie: the weight/width name tables, the class constants and the
@@ -123,8 +110,5 @@ Theorem model_constants_match_source :
   zero1904 = Gen.C01.c01_head_zeroTime /\
   Gen.C01.c01_os2_WeightNormal = 400%N /\ Gen.C01.c01_os2_WidthNormal = 5%N /\
   assoc_n Gen.C01.c01_os2_WeightBold weight_names = Some s_Bold.
-Proof.
-  split; [exact tie_weight_names|]. split; [exact tie_width_names|]. split; [exact tie_zero_time|].
-  exact tie_class_constants.
-Qed.
+Proof. exact tie_all. Qed.
 Print Assumptions model_constants_match_source.
